@@ -460,3 +460,8 @@ def _linear(ck, prog):
         if name.startswith("show"):
             _getfig_discipline(ck, f)
     ck.count("linear plot entry points", 8)
+
+
+def run_thorough(ck, prog):
+    from props import thorough
+    ck.attempt(thorough.whole_package_bind, ck, prog)
